@@ -2,6 +2,7 @@ import FhVerif.Spec.Rfc9112
 import FhVerif.Model.ReqFraming
 import FhVerif.Model.ConnClose
 import FhVerif.Model.HeadEnd
+import FhVerif.Model.ConnStates
 namespace Fh.Driver
 open Fh Fh.Spec.Rfc
 
@@ -42,6 +43,15 @@ def opsConn (op : String) (a : List Bytes) : Option String :=
   | "frame", [input] =>
     let (ms, s) := frame input
     some (";".intercalate (ms.map renderMsg ++ ["E " ++ renderStop s]))
+  | "connstates", [iters, observed] =>
+    -- iters: one letter per loop iteration (n noByte, s served, c servedClose, e parseError, h hijack);
+    -- observed: one letter per hook call (N A I C H). Reply: model's word, and whether the observed word is in the language
+    let it := iters.filterMap fun c => match Char.ofNat c.toNat with
+      | 'n' => some Fh.Model.Iter.noByte | 's' => some .served | 'c' => some .servedClose | 'e' => some .parseError | 'h' => some .hijack | _ => none
+    let letter : Fh.Model.CS → Char := fun | .new => 'N' | .active => 'A' | .idle => 'I' | .closed => 'C' | .hijacked => 'H'
+    let obs := observed.filterMap fun c => match Char.ofNat c.toNat with
+      | 'N' => some Fh.Model.CS.new | 'A' => some .active | 'I' => some .idle | 'C' => some .closed | 'H' => some .hijacked | _ => none
+    some s!"{String.ofList ((Fh.Model.states it).map letter)} {Fh.Model.accepts obs}"
   | "headend", [buf] =>
     match Fh.Model.parseHead (fun l b => (l, b)) buf with
     | .needMore => some "needmore"
